@@ -28,7 +28,9 @@ TARGETS = ["cmb_random", "cmb_random_uniform", "cmb_random_triangular", "cmb_ran
 # functions of which only the leading statements are translated (see c2lean_dist: PARTIAL functions)
 PARTIAL = {"cmb_random_std_gamma"}
 STRUCTS = ["cmb_random_alias"]
-CONST_DOUBLES = ["sum_tolerance"]
+CONST_DOUBLES = ["sum_tolerance", "nor_zig_x_tail_start", "nor_zig_inv_tail_start", "exp_zig_x_tail_start"]
+# functions outside the subset of which one do-while loop and the return after it are translated (see c2lean_dist: FRAGMENTS)
+FRAGMENTS = {"cmi_random_nor_not_hot": "cmi_random_nor_not_hot_tail"}
 
 TABLES = {
     "exp": ("cmi_random_exp_zig.inc",
@@ -143,7 +145,7 @@ def functions_text(impl):
     for s in STRUCTS:
         body.append("/-- struct %s of include/cmb_random.h -/\n%s" % (s, tr.struct_decl(s)))
     for nm, v in consts.items():
-        body.append("/-- %s: static double %s, never written -/\ndef %s : K := %s\n" % (SRC, nm, nm, tr.klit(v)))
+        body.append("/-- %s (or an include file generated at build time): static double %s, never written -/\ndef %s : K := %s\n" % (SRC, nm, nm, tr.klit(v)))
     for name in TARGETS:
         if name not in fns:
             raise c2lean.Untranslatable("function %s with a body not found in %s" % (name, SRC))
@@ -154,6 +156,14 @@ def functions_text(impl):
         info.append({"function": name, "ast": c2lean.ast_hash(fns[name]), "preconditions": fi.pre, "draws": fi.draws,
                      "abstract_libm": fi.libm, "abstract_inputs": [e[1] for e in fi.ext], "statics_as_parameters": [s[0] for s in fi.statics],
                      "fuel": fi.fuel})
+    for name, stem in FRAGMENTS.items():
+        if name not in fns:
+            raise c2lean.Untranslatable("function %s with a body not found in %s" % (name, SRC))
+        text, fis = tr.do_while_fragment(fns[name], stem)
+        body.append("/-- %s (AST %s): the do-while loop of the tail branch — `%s_iter` is ONE iteration (body, then the loop condition: "
+                    "true = go round again), `%s_result` the value returned after the loop -/\n%s" % (
+                        name, c2lean.ast_hash(fns[name]), stem, stem, text))
+        info.append({"function": name + " (do-while fragment)", "ast": c2lean.ast_hash(fns[name]), "fragments": fis})
     return "\n".join(body), info, {k: str(v) for k, v in consts.items()}
 
 
